@@ -198,3 +198,70 @@ func RelReach(fn *ssa.Function, target ssa.Instruction, isX, isY func(ssa.Value)
 	}
 	return out
 }
+
+// ReachUnder is reachability that is path-sensitive in ONE predicate: it tracks along
+// each path whether the atom has been asserted true, false or not at all, prunes paths
+// that would assert both, and stops at blocker instructions. It returns the set of atom
+// states (bit 0 unknown, bit 1 true, bit 2 false) in which target is reachable from the
+// entry without executing a blocker.
+func ReachUnder(fn *ssa.Function, target ssa.Instruction, a *Atom, blocker func(ssa.Instruction) bool) (states uint8) {
+	const (
+		U = 0
+		T = 1
+		F = 2
+	)
+	facts := map[Edge]int{}
+	for _, f := range EdgeFacts(fn, a) {
+		if f.Holds {
+			facts[f.E] = T
+		} else {
+			facts[f.E] = F
+		}
+	}
+	type st struct {
+		b   *ssa.BasicBlock
+		idx int
+		v   int
+	}
+	type key struct {
+		b *ssa.BasicBlock
+		v int
+	}
+	seen := map[key]bool{{fn.Blocks[0], U}: true}
+	queue := []st{{fn.Blocks[0], 0, U}}
+	for len(queue) > 0 {
+		s := queue[0]
+		queue = queue[1:]
+		blocked := false
+		for i := s.idx; i < len(s.b.Instrs); i++ {
+			in := s.b.Instrs[i]
+			if in == target {
+				states |= 1 << uint(s.v)
+				blocked = true // no need to go on from here for this state
+				break
+			}
+			if blocker != nil && blocker(in) {
+				blocked = true
+				break
+			}
+		}
+		if blocked {
+			continue
+		}
+		for _, succ := range s.b.Succs {
+			v := s.v
+			if f, ok := facts[Edge{s.b, succ}]; ok {
+				if v != U && v != f {
+					continue // contradictory path
+				}
+				v = f
+			}
+			k := key{succ, v}
+			if !seen[k] {
+				seen[k] = true
+				queue = append(queue, st{succ, 0, v})
+			}
+		}
+	}
+	return states
+}
